@@ -121,7 +121,10 @@ func (x *world) stop() {
 	w.Ev("stop", "ok", yn(ok))
 }
 
-var tubeRefs = []string{"live-rel", "live-unrel", "closed-rel", "never-rel", "never-unrel", "witness", "finwait1-rel", "lastack-rel"}
+var tubeRefs = []string{"live-rel", "live-unrel", "closed-rel", "never-rel", "never-unrel", "witness", "finwait1-rel", "lastack-rel", "full-unrel"}
+
+// frame sizes above the largest frame a regular sender produces (32768 bytes of data), up to the largest datagram
+var hugeSizes = []int{32769, 40951, 50000, 65523, 36000, 45000, 61000, 65000}
 
 func frames(group int, rng *rand.Rand) {
 	x := setup()
@@ -164,6 +167,20 @@ func frames(group int, rng *rand.Rand) {
 			return scriptconn.Action{}
 		})
 		sent = 2 // the FIN is frame 1
+	case "full-unrel":
+		rel = false // a fresh tube with a full receive queue is made for every class triple (see below)
+	}
+	// an unreliable tube the victim's application accepted but does not read, its receive queue exactly full
+	fullTube := func() byte {
+		t, _ := x.ma.CreateUnreliableTube(15)
+		x.mb.Accept()
+		time.Sleep(2 * time.Millisecond)
+		d := make([]byte, 16)
+		for k := 0; k < 1000; k++ {
+			x.n.B.Inject(frame(t.GetID(), 0, uint16(len(d)), 0, uint32(k+1), d))
+		}
+		time.Sleep(10 * time.Millisecond)
+		return t.GetID()
 	}
 	finTube := func() byte {
 		t, _ := x.ma.CreateReliableTube(14)
@@ -177,7 +194,7 @@ func frames(group int, rng *rand.Rand) {
 		time.Sleep(10 * time.Millisecond)
 		return t.GetID()
 	}
-	lens := []string{"zero", "exact", "declared-less", "declared-more", "declared-max"}
+	lens := []string{"zero", "exact", "declared-less", "declared-more", "declared-max", "exact-huge"}
 	if ref == "finwait1-rel" || ref == "lastack-rel" {
 		sent = 2
 	}
@@ -193,6 +210,9 @@ func frames(group int, rng *rand.Rand) {
 			for nc, nv := range nos {
 				if ref == "finwait1-rel" || ref == "lastack-rel" {
 					id = finTube()
+				}
+				if ref == "full-unrel" {
+					id = fullTube()
 				}
 				for meta := 0; meta < 64; meta++ {
 					m := byte(meta)
@@ -213,6 +233,10 @@ func frames(group int, rng *rand.Rand) {
 						declared = 4000
 					case "declared-max":
 						declared = 65535
+					case "exact-huge":
+						data = make([]byte, hugeSizes[(meta+count/64)%len(hugeSizes)])
+						rng.Read(data[:64])
+						declared = uint16(len(data))
 					}
 					w.Ev("case", "ref", ref, "len", lc, "ack", ac, "no", nc, "meta", meta)
 					if count%16 == 0 {
